@@ -16,10 +16,13 @@ Code modelled:
     expired) action execution: action_handler.on_action_complete(action_ex, Result(error=..)).
   * DefaultEngine.start_task -> task_handler.run_task -> RegularTask.run(first_run):
       _run_new      : only an IDLE task is set RUNNING and gets its action scheduled;
-      _run_existing : a SUCCESS task raises MistralError (rolled back); a RUNNING task with an action
-                      (or sub-workflow) execution that has not completed: return, nothing changes
-                      (repo commit 258aaaae); ANY other state: set RUNNING, un-accept (reset) old action
-                      executions, schedule a NEW action execution.
+      _run_existing : in this order: a SUCCESS task raises MistralError (rolled back); a COMPLETED task
+                      and a request that is not an explicit rerun (`rerun=False`: the request re-queued by
+                      Workflow.resume for a task that was still IDLE; `rerun=True` is sent by
+                      rerun_workflow only): return, nothing changes (repo commit 17f326b9); a RUNNING task
+                      with an action (or sub-workflow) execution that has not completed: return, nothing
+                      changes (repo commit 258aaaae); ANY other state: set RUNNING, un-accept (reset) old
+                      action executions, schedule a NEW action execution.
   * DefaultEngine.start_workflow with an execution id: the insert of an existing id raises
     DBDuplicateEntryError, the transaction is rolled back and the existing execution is returned.
 Not modelled here: policies (wait/retry/pause-before), with-items tasks, workflow-level state.
@@ -78,7 +81,10 @@ inductive Delivery where
   | result (a : Nat) (k : Kind) (tag : Nat)   -- on_action_complete(action #a, Result of kind k); tag = payload
   | wfResult (k : Kind)                       -- on_action_complete(sub-workflow, wf_action=True)
   | expiry                                    -- heartbeat checker pass, every RUNNING action expired
-  | startTask (firstRun : Bool) (reset : Bool)
+  | startTask (firstRun : Bool) (rerun : Bool) (reset : Bool)
+      -- start_task(task, first_run, rerun, reset): first_run=True is the request created with a new task;
+      -- first_run=False asks to run an EXISTING task: rerun=True by rerun_workflow, rerun=False by
+      -- Workflow.resume (for every task that is still IDLE)
   deriving DecidableEq, Repr
 
 /-- the tag under which the heartbeat checker's synthetic error result is stored -/
@@ -134,9 +140,10 @@ def hasRunningAction (as : List ActionRow) : Bool := as.any fun r => !r.state.co
 /-- the task is running the action of an earlier start request -/
 def inProgress (t : Task) : Bool := t.state == .running && hasRunningAction t.actions
 
-/-- `_run_existing` -/
-def runExisting (t : Task) (reset : Bool) : Task × Verdict :=
+/-- `_run_existing` (checks in the order of the code) -/
+def runExisting (t : Task) (rerun reset : Bool) : Task × Verdict :=
   if t.state = .success then (t, .refused)
+  else if t.state.completed && !rerun then (t, .noop)
   else if inProgress t then (t, .noop)
   else (scheduleAction { t with state := .running, actions := resetActions reset t.actions }, .accepted)
 
@@ -144,15 +151,15 @@ def step (t : Task) : Delivery → Task
   | .result a k tag => (deliverResult t a k tag).1
   | .wfResult k => taskComplete t (tStateOf k)
   | .expiry => deliverExpiry t
-  | .startTask true _ => runNew t
-  | .startTask false reset => (runExisting t reset).1
+  | .startTask true _ _ => runNew t
+  | .startTask false rerun reset => (runExisting t rerun reset).1
 
 def verdict (t : Task) : Delivery → Verdict
   | .result a k tag => (deliverResult t a k tag).2
   | .wfResult _ => if t.state.completed then .noop else .accepted
   | .expiry => .accepted
-  | .startTask true _ => if t.state = .idle then .accepted else .noop
-  | .startTask false reset => (runExisting t reset).2
+  | .startTask true _ _ => if t.state = .idle then .accepted else .noop
+  | .startTask false rerun reset => (runExisting t rerun reset).2
 
 def run (t : Task) : List Delivery → Task
   | [] => t
@@ -163,12 +170,13 @@ def fresh : Task := { state := .idle, actions := [], dispatched := 0, completion
 
 /-- the delivery is a start-task request (of either kind) -/
 def Delivery.isStart : Delivery → Bool
-  | .startTask _ _ => true
+  | .startTask _ _ _ => true
   | _ => false
 
-/-- the delivery is not a (re)start of an existing task (`first_run=False`) -/
+/-- the delivery is not an explicit rerun request (`first_run=False, rerun=True`, sent by rerun_workflow);
+    the request re-queued on resume (`first_run=False, rerun=False`) is NOT excluded -/
 def Delivery.notRerun : Delivery → Bool
-  | .startTask false _ => false
+  | .startTask false true _ => false
   | _ => true
 
 /-! ### workflow execution ids -/
